@@ -142,7 +142,67 @@ func Ranges(index []ref.Range) []tensor.Range {
 
 // Exec performs one instruction on real operands: exactly one public API call
 // (one component call for the composites).
+//
+// Every slice ARGUMENT handed to the library (shape, index list, operand list) is a private copy that is
+// overwritten as soon as the call has returned: a caller's slice is the caller's to reuse from then on, so
+// nothing the library does later (a later forward call, BackPropagate) may depend on it.
 func Exec(in ref.Instr, xs []tensor.Tensor) (tensor.Tensor, error) {
+	var scrib []func()
+	defer func() {
+		for _, f := range scrib {
+			f()
+		}
+	}()
+	return execS(in, xs, &scrib)
+}
+
+func execS(in ref.Instr, xs []tensor.Tensor, scrib *[]func()) (tensor.Tensor, error) {
+	note := func(f func()) {
+		if scrib != nil {
+			*scrib = append(*scrib, f)
+		}
+	}
+	ints := func(v []int) []int {
+		c := ref.CopyInts(v)
+		note(func() {
+			for i := range c {
+				c[i] = 97 + i
+			}
+		})
+		return c
+	}
+	ranges := func(v []ref.Range) []tensor.Range {
+		c := Ranges(v)
+		note(func() {
+			for i := range c {
+				c[i] = tensor.Range{From: 5 + i, To: 9 + i}
+			}
+		})
+		return c
+	}
+	switch in.Op {
+	case "slice":
+		return xs[0].Slice(ranges(in.Index))
+	case "patch":
+		return xs[0].Patch(ranges(in.Index), xs[1])
+	case "reshape":
+		return xs[0].Reshape(ints(in.Shape))
+	case "broadcast":
+		return xs[0].Broadcast(ints(in.Shape))
+	case "full":
+		return tensor.Full(ints(in.Shape), in.F, Conf(in.Tracked))
+	case "concat":
+		c := append([]tensor.Tensor(nil), xs...)
+		note(func() {
+			for i, j := 0, len(c)-1; i < j; i, j = i+1, j-1 {
+				c[i], c[j] = c[j], c[i]
+			}
+			if len(c) > 0 {
+				c[0] = c[len(c)-1]
+			}
+		})
+		return tensor.Concat(c, in.Dim)
+	}
 	switch in.Op {
 	case "leaf":
 		return Leaf(ref.New(in.Shape, in.Data), in.Tracked)
